@@ -157,9 +157,18 @@ def single_cell(net, times, cell, rule_dt, fire_cost=1, edge_cost=1):
     return dict(us=us, rows=rows, vols=vols, times=out_times, divided=divided, dead=dead, visited=visited, final=final_cell)
 
 
+def splitter_for(spec, code):
+    """the splitter attached to the division rule (code < number of rules) or division event that divided the cell"""
+    rules = spec.get('division_rules', [])
+    if code < len(rules):
+        return rules[code].get('splitter', spec['splitter'])
+    devs = [e for e in spec.get('events', []) if e['kind'] == 'division']
+    return devs[code - len(rules)].get('splitter', spec['splitter'])
+
+
 def split_menu_and_apply(spec, cell, species_order):
     """LineageVolumeSplitter as a choice-point generator: yields menus, returns (daughter1, daughter2, uniforms)"""
-    sp = spec['splitter']
+    sp = splitter_for(spec, cell['divided'])
     us = []
     Vm = cell['V']
     if sp.get('volume', 'binomial') == 'binomial':
